@@ -181,6 +181,9 @@ func C01(c *Ctx) {
 }
 
 func C03(c *Ctx) {
+	R2KeyPresent(c)
+	R14TableReach(c)
+	R2DecryptOnce(c)
 	R2Model(c)
 	R2GuardRead(c, "C03")
 	R2Identity(c)
@@ -209,10 +212,13 @@ func C02(c *Ctx) {
 	R8Terminators(c)
 	R8Pivot(c)
 	R14Commands(c)
+	R8SizeField(c)
+	R8UnwrittenElement(c)
 	R15WorkingHours(c)
 }
 
 func C08(c *Ctx) {
+	R2DecryptOnce(c)
 	R8IDWidth(c)
 	R4PivotQueue(c)
 	R9Pivot(c)
